@@ -107,6 +107,8 @@ func main() {
 			res, n = range2index(fset, f, src, sliceRanges[p])
 		case "timeflip":
 			res, n = timeflip(fset, f, src, timeCalls[p])
+		case "forbreak":
+			res, n = forbreak(fset, f, src)
 		default:
 			panic("unknown transformation")
 		}
@@ -543,4 +545,29 @@ func timeflip(fset *token.FileSet, f *ast.File, src []byte, calls map[int]bool) 
 		return src, 0
 	}
 	return apply(src, es), len(es)
+}
+
+// forbreak: `for init; cond; post { body }` -> `for init; ; post { if !(cond) { break }; body }`: the loop test written
+// as the first statement of the body.
+func forbreak(fset *token.FileSet, f *ast.File, src []byte) ([]byte, int) {
+	var es []edit
+	ast.Inspect(f, func(n ast.Node) bool {
+		fs, ok := n.(*ast.ForStmt)
+		if !ok || fs.Cond == nil {
+			return true
+		}
+		cond := string(src[off(fset, fs.Cond.Pos()):off(fset, fs.Cond.End())])
+		es = append(es, edit{off(fset, fs.Cond.Pos()), off(fset, fs.Cond.End()), ""})
+		if fs.Init == nil && fs.Post == nil {
+			// `for cond {` -> `for {`
+		}
+		es = append(es, edit{off(fset, fs.Body.Lbrace) + 1, off(fset, fs.Body.Lbrace) + 1, "\nif !(" + cond + ") {\nbreak\n}\n"})
+		return true
+	})
+	if len(es) == 0 {
+		return src, 0
+	}
+	// `for init; ; post` needs its semicolons: a loop that had only a condition becomes `for {`, which the empty
+	// replacement already gives; with init or post the semicolons were there before
+	return apply(src, es), len(es) / 2
 }
